@@ -412,6 +412,24 @@ func c11Check(c *harness.Ctx) {
 			}
 		}
 	}
+	if th {
+		for _, h := range c11Histories(5) {
+			if len(h) != 5 {
+				continue
+			}
+			idx++
+			if !c.Mine(idx) {
+				continue
+			}
+			if c.Expired() {
+				return
+			}
+			cs := c11Case{History: h, IdleHold: 5, Retry: 5, Legacy: idx%2 == 0}
+			b, _ := json.Marshal(cs)
+			c.Eval(b, true)
+			c11Eval(c, cs)
+		}
+	}
 	bound := 1
 	if th {
 		bound = 2
